@@ -290,3 +290,5 @@ def run(chk, prog, tier):
     check_report_flow(chk, prog)
     check_combined(chk, prog)
     check_run_n(chk, prog)
+    from . import c05
+    c05.check_change_reported(chk, prog)
